@@ -131,10 +131,21 @@ func (w *World) analyse(op string, nowNs int64, token string) (a analysis) {
 	}
 	ps := make([]string, len(w.provs))
 	for i, p := range w.provs {
-		ps[i] = fmt.Sprintf("%s:%s:%s:%s:x:%s:%s:%s:%s:%s:%s", p.Ty, c.X(p.Name), c.X(p.Kid), c.X(p.ClientID), c.X(p.Issuer),
+		aud := ""
+		if p.cloud != nil {
+			aud = p.cloud.audience
+		}
+		ps[i] = fmt.Sprintf("%s:%s:%s:%s:%s:%s:%s:%s:%s:%s:%s", p.Ty, c.X(p.Name), c.X(p.Kid), c.X(p.ClientID), c.X(aud), c.X(p.Issuer),
 			c.X(fragEsc(p.tokenID())), c.B(p.Init), c.B(p.SSH), c.B(p.DisableRenewal), c.B(p.RenewAfterExpiry))
 	}
-	fmt.Fprintf(&sb, " hosts=%s provs=%s", c.List(hs), c.List(ps))
+	ring := make([]string, len(w.keyring))
+	for i, rk := range w.keyring {
+		ring[i] = "h" + rk.cls
+		if rk.user {
+			ring[i] = "u" + rk.cls
+		}
+	}
+	fmt.Fprintf(&sb, " hosts=%s provs=%s sshkeys=%s", c.List(hs), c.List(ps), c.List(ring))
 
 	empty := func() {
 		fmt.Fprintf(&sb, " parsed=0 kid=x iss=x sub=x aud=- exp=! nbf=! iat=! azp=x tid=x email=x lbt=0 frag=x fragesc=x hasssh=0 sshtype=0 nebssh=0 nebsans=0 pop=! cr=-")
@@ -177,8 +188,18 @@ func (w *World) analyse(op string, nowNs int64, token string) (a analysis) {
 	pop := "!"
 	popCert, popJWT, perr := provisioner.ExtractSSHPOPCert(token)
 	if perr == nil {
-		pop = fmt.Sprintf("%d:%d:%s:%s:%s", popCert.ValidAfter, popCert.ValidBefore, c.B(popCert.CertType == ssh.HostCert),
-			c.B(popCert.CertType == ssh.UserCert), c.B(claims.Subject == strconv.FormatUint(popCert.Serial, 10)))
+		// under which of the keys the authority knows (own, retired, federated; either type) does the
+		// certificate's signature verify
+		signer := "!"
+		data := bytesForSigning(popCert)
+		for i, rk := range w.keyring {
+			if (&ssh.Certificate{Key: rk.pub}).Verify(data, popCert.Signature) == nil {
+				signer = strconv.Itoa(i)
+				break
+			}
+		}
+		pop = fmt.Sprintf("%d:%d:%s:%s:%s:%s", popCert.ValidAfter, popCert.ValidBefore, c.B(popCert.CertType == ssh.HostCert),
+			c.B(popCert.CertType == ssh.UserCert), c.B(claims.Subject == strconv.FormatUint(popCert.Serial, 10)), signer)
 		for _, v := range []uint64{popCert.ValidAfter, popCert.ValidBefore} {
 			if v < 1<<33 {
 				a.boundaries = append(a.boundaries, int64(v)*1e9)
@@ -187,9 +208,16 @@ func (w *World) analyse(op string, nowNs int64, token string) (a analysis) {
 	}
 	// crypto facts per configured provisioner
 	crs := make([]string, len(w.provs))
+	cls := make([]string, len(w.provs))
 	for i, p := range w.provs {
 		var sig, chain, dig, admin, dom, grp, ident, vpanic bool
+		cls[i] = "00000"
 		switch p.Ty {
+		case "gcp", "aws", "azure":
+			cf := cloudOracle(p, tok, nowNs, w.certType)
+			sig, chain = cf.sig, cf.chain
+			cls[i] = cf.bits()
+			a.boundaries = append(a.boundaries, cf.boundaries...)
 		case "jwk":
 			var x jwtPayload
 			pub := p.jwk.Public()
@@ -251,11 +279,11 @@ func (w *World) analyse(op string, nowNs int64, token string) (a analysis) {
 		crs[i] = c.B(sig) + c.B(chain) + c.B(dig) + c.B(admin) + c.B(dom) + c.B(grp) + c.B(ident) + c.B(vpanic)
 		a.crs = append(a.crs, crFacts{sig, chain, dig, admin, dom, grp, ident, vpanic})
 	}
-	fmt.Fprintf(&sb, " parsed=1 kid=%s iss=%s sub=%s aud=%s exp=%s nbf=%s iat=%s azp=%s tid=%s email=%s lbt=%s frag=%s fragesc=%s hasssh=%s sshtype=%s nebssh=%s nebsans=%s pop=%s cr=%s",
+	fmt.Fprintf(&sb, " parsed=1 kid=%s iss=%s sub=%s aud=%s exp=%s nbf=%s iat=%s azp=%s tid=%s email=%s lbt=%s frag=%s fragesc=%s hasssh=%s sshtype=%s nebssh=%s nebsans=%s pop=%s cr=%s cl=%s",
 		c.X(tok.Headers[0].KeyID), c.X(claims.Issuer), c.X(claims.Subject), c.List(auds),
 		optInt(claims.Expiry), optInt(claims.NotBefore), optInt(claims.IssuedAt),
 		c.X(lbt.AuthorizedParty), c.X(lbt.TenantID), c.X(lbt.Email), c.B(lbtOk), c.X(frag), c.X(fragEsc(frag)),
-		c.B(hasSSH), c.B(sshTypeOk), c.B(nebSSH), c.B(nebSans), pop, c.List(crs))
+		c.B(hasSSH), c.B(sshTypeOk), c.B(nebSSH), c.B(nebSans), pop, c.List(crs), c.List(cls))
 	a.line = sb.String()
 	const lee = int64(60e9)
 	if claims.Expiry != nil {
